@@ -35,6 +35,14 @@ def has_leaf(node, value, index):
     return any(has_leaf(c, value, index) for c in node.children)
 
 
+def safe_proof(M, tree, i):
+    """get_proof, with an exception of the code under test as an observation (no proof produced)."""
+    try:
+        return M.get_proof(tree, i)
+    except Exception:
+        return None
+
+
 def run(pid, tier, replay=None):
     chk = Check(pid, tier)
     quick = tier != "thorough"
@@ -72,8 +80,10 @@ def run(pid, tier, replay=None):
         tree = M.get_merkle_tree(list(leaves))
         for i in range(1, n + 1):
             chk.case(("proof", n, i))
-            pr = M.get_proof(tree, i - 1)
-            if not has_leaf(pr, leaves[i - 1], i - 1):
+            pr = safe_proof(M, tree, i - 1)
+            if pr is None:
+                chk.violation("C17:no_inclusion_proof_produced_for_a_position_of_the_list", {"n": n, "i": i})
+            elif not has_leaf(pr, leaves[i - 1], i - 1):
                 chk.violation("C17:proof_lacks_the_entry", {"n": n, "i": i})
             elif pr.hash() != got:
                 chk.violation("C17:proof_does_not_reproduce_commitment", {"n": n, "i": i})
@@ -149,10 +159,10 @@ def run(pid, tier, replay=None):
         i = rng.randrange(n)
         leaves = [indep.sha256d(b"p%d.%d" % (n, j)) for j in range(n)]
         tree = M.get_merkle_tree(list(leaves))
-        pr = M.get_proof(tree, i)
-        ev.append({"k": "proof", "n": n, "i": i + 1, "leaf_present": has_leaf(pr, leaves[i], i),
-                   "reproduces": pr.hash() == M.get_merkle_root(list(leaves)),
-                   "shape_matches": match_proof(pr, proofs[(n, i + 1)], leaves, i + 1) if (n, i + 1) in proofs else True})
+        pr = safe_proof(M, tree, i)
+        ev.append({"k": "proof", "n": n, "i": i + 1, "leaf_present": pr is not None and has_leaf(pr, leaves[i], i),
+                   "reproduces": pr is not None and pr.hash() == M.get_merkle_root(list(leaves)),
+                   "shape_matches": match_proof(pr, proofs[(n, i + 1)], leaves, i + 1) if (pr is not None and (n, i + 1) in proofs) else True})
     # long lists: "for every list" has no size limit (the header commitment of a candidate is computed from whatever is pending); lengths
     # around powers of two up to 2^18 and beyond, edits at the front and at the end, a few proofs
     import time as _t
@@ -174,8 +184,9 @@ def run(pid, tier, replay=None):
         if n_ in (1025, 262145) or (not quick and n_ <= 262145):
             tree = M.get_merkle_tree(list(base))
             for i_ in (0, n_ // 2, n_ - 1):
-                pr = M.get_proof(tree, i_)
-                ev.append({"k": "bigproof", "n": n_, "i": i_ + 1, "leaf_present": has_leaf(pr, base[i_], i_), "reproduces": pr.hash() == r0})
+                pr = safe_proof(M, tree, i_)
+                ev.append({"k": "bigproof", "n": n_, "i": i_ + 1, "leaf_present": pr is not None and has_leaf(pr, base[i_], i_),
+                           "reproduces": pr is not None and pr.hash() == r0})
                 nbig += 1
     chk.extra["long_lists"] = {"sizes": sizes, "events": nbig, "wall_s": round(_t.time() - t_big, 1)}
     chk.sample(ev[0])
